@@ -3,6 +3,7 @@ use mc_core::Ctx;
 
 mod c45;
 mod mock;
+mod util;
 mod reparse;
 mod wasmgen;
 mod c46;
